@@ -431,7 +431,7 @@ def tlc_traces(traces: list, cfgname: str, timeout=600):
     if r.error or not r.finished or r.rc == 124 or r.invariant_violated:
         raise MachineryError(f"trace validation ({cfgname}) failed to run: {r.error or r.invariant_violated}\n{r.out[-3000:]}")
     import re
-    m = re.search(r'<<"REJECTED", \{(.*?)\}>>', r.out, re.S)
+    m = re.search(r'<<\s*"REJECTED",\s*\{(.*?)\}\s*>>', r.out, re.S)
     if m is None:
         raise MachineryError("trace spec did not print a REJECTED line\n" + r.out[-3000:])
     rejected = {int(t) - 1: int(l) for t, l in re.findall(r"<<(\d+), (\d+)>>", m.group(1))}
@@ -523,6 +523,8 @@ def main(tier=None, replay=None):
             seen.add(k)
             configs.append(p["cfg"])
             predicted.append(p["out"])
+    order = sorted(range(len(configs)), key=lambda i: json.dumps(configs[i], sort_keys=True))   # TLC's worker
+    configs, predicted = [configs[i] for i in order], [predicted[i] for i in order]            # order is not stable
     if len(configs) < 50:
         raise MachineryError(f"model emitted only {len(configs)} configurations")
     ck.part("configurations", emitted=len(configs))
